@@ -17,13 +17,15 @@ func main() {
 	p := &c05lib.Prefixed{
 		Prop: "C05", Name: "json", PF: jsonproto.NewJSONProtoFunc(), StrictShape: true,
 		Profile: &c05lib.Profile{
-			MethodClasses: []int{c05lib.ClsText, c05lib.ClsText, c05lib.ClsPrint, c05lib.ClsJSON, c05lib.ClsASCII, c05lib.ClsUTF8P},
+			// the service method is an arbitrary byte string: control bytes, 0x7f, bytes >= 0x80,
+			// invalid UTF-8, quotes and backslashes must all come back
+			MethodClasses: []int{c05lib.ClsText, c05lib.ClsPrint, c05lib.ClsJSON, c05lib.ClsASCII, c05lib.ClsUTF8, c05lib.ClsAll, c05lib.ClsAll, c05lib.ClsSep, c05lib.ClsHigh},
 			MethodLens:    []int{0, 1, 7, 20, 255, 256, 1000},
 			BodyClasses:   []int{c05lib.ClsAll, c05lib.ClsAll, c05lib.ClsJSON, c05lib.ClsSep, c05lib.ClsPrint, c05lib.ClsUTF8},
 			BodyLens:      []int{0, 0, 1, 16, 255, 256, 1000, 5000},
 			Mtypes:        []byte{1, 2, 3, 4, 5}, AnyMtype: true, BigFields: true,
 		},
-		InLimits: func(g *c05lib.GenMsg) bool { return c05lib.JSONSafeMethod(g.Method) },
+		InLimits: func(g *c05lib.GenMsg) bool { return true },
 		HostilePayload: func(r *rand.Rand, st *Stats) []byte {
 			switch r.Intn(6) {
 			case 0:
@@ -34,7 +36,7 @@ func main() {
 				return []byte(c05lib.HostileJSONMembers(r, st) + "}")
 			}
 		},
-		Rule: "jsonproto: (a) pack/unpack of generated messages (all byte values in meta/status/body, ASCII and printable UTF-8 service methods; body lengths 0,1,255,256,65535,65536; seq extremes; every codec id; pipes over xor/rev/lenp/md5/gzip) under a size limit (sometimes exactly at / one below the frame size), unpacked through 3 chunkings; (b) streams of 1-6 back-to-back frames; (c) hostile frames: the written JSON shape with hostile member values (escapes gjson cuts at, \\u forms, raw control bytes, numbers beyond a byte), garbage payloads, truncation, rewritten size / pipe-length fields, empty frames. distinct by input; non-trivial = all of them",
+		Rule: "jsonproto: (a) pack/unpack of generated messages (all byte values in service method/meta/status/body (methods with control bytes, 0x7f, high bytes, invalid UTF-8 must round-trip); body lengths 0,1,255,256,65535,65536; seq extremes; every codec id; pipes over xor/rev/lenp/md5/gzip) under a size limit (sometimes exactly at / one below the frame size), unpacked through 3 chunkings; (b) streams of 1-6 back-to-back frames; (c) hostile frames: the written JSON shape with hostile member values (escapes gjson cuts at, \\u forms, raw control bytes, numbers beyond a byte), garbage payloads, truncation, rewritten size / pipe-length fields, empty frames. distinct by input; non-trivial = all of them",
 	}
 	p.Run(cfg)
 }
